@@ -89,27 +89,57 @@ func c13Payload(compr, mode string, target, idx int) []byte {
 		return p
 	}
 	enc := compression.NewSyncEncodeBuffer()
-	k := target - 128
-	var found []byte
-	for iter := 0; iter < 200 && k > 0; iter++ {
-		p := make([]byte, k+1024)
-		c13Noise(p[:k], uint64(idx)+1)
+	// payload = k noise bytes + m zero bytes + r noise bytes; coarse search on k, then a local
+	// brute force over (k, m, r): the encoders move in steps of a few bytes in each parameter.
+	mk := func(k, m, r int) []byte {
+		// m zero bytes (compress to almost nothing), then k+r noise bytes (stored as literals)
+		p := make([]byte, m+k+r)
+		c13Noise(p[m:], uint64(idx)+1)
+		return p
+	}
+	size := func(p []byte) int {
 		e, err := compression.Encode(compr, p, enc)
 		if err != nil {
+			return -1
+		}
+		return len(e)
+	}
+	base := 1024
+	if target/4 > base {
+		base = target / 4 / 64 * 64
+	}
+	k := target - 128
+	for iter := 0; iter < 40 && k > 0; iter++ {
+		d := target - size(mk(k, base, 0))
+		if d >= 1 && d <= 40 {
 			break
 		}
-		if len(e) == target {
-			found = p
-			break
+		k += d - 20
+	}
+	var found []byte
+search:
+	for dk := 0; dk <= 64 && k+dk > 0; dk++ {
+		for m := base; m <= base+64*8; m += 64 {
+			p := mk(k+dk, m, 0)
+			if n := size(p); n == target && n < len(p) {
+				found = p
+				break search
+			}
 		}
-		d := target - len(e)
-		if d > 64 || d < -64 {
-			k += d
-		} else if d > 0 {
-			k++
-		} else {
-			k--
+	}
+	if found == nil && os.Getenv("VERIF_C13_DEBUG") != "" {
+		seen := map[int]bool{}
+		for dk := 0; dk <= 48; dk++ {
+			for m := base; m <= base+64*24; m += 64 {
+				seen[size(mk(k+dk, m, 0))] = true
+			}
 		}
+		var ks []int
+		for x := range seen {
+			ks = append(ks, x)
+		}
+		sort.Ints(ks)
+		fmt.Println("c13Payload FAILED", compr, target, "k", k, "sizes", ks)
 	}
 	c13PayloadCache[key] = found
 	return found
